@@ -41,7 +41,10 @@ func split(ctx context.Context, r io.Reader) (<-chan string, <-chan error) {
 			}
 		}
 		if err := sc.Err(); err != nil {
-			errc <- err
+			select {
+			case <-ctx.Done():
+			case errc <- err:
+			}
 			return
 		}
 		select {
